@@ -123,6 +123,9 @@ type checkOutcome struct {
 
 func runCheck(id, tier string) int {
 	t0 := time.Now()
+	if id == "C01" {
+		genReplPool() // REPL line pool regenerated from /repo/runscript's own string literals
+	}
 	jobs := jobsFor(id, tier)
 	if len(jobs) == 0 {
 		fatal("no jobs for %s %s", id, tier)
@@ -460,6 +463,15 @@ func runReplay(path string) int {
 		switch obj["kind"] {
 		case "race":
 			ok, out := c20Replay(fmt.Sprint(obj["thread_A"]), fmt.Sprint(obj["thread_B"]))
+			fmt.Println(tail(out, 1500))
+			if ok {
+				fmt.Printf("VIOLATION property=C20 replay=%s\n", path)
+				return 1
+			}
+			fmt.Println("no data race reported by go test -race")
+			return 0
+		case "trace-race":
+			ok, out := c20TraceRaceReplay()
 			fmt.Println(tail(out, 1500))
 			if ok {
 				fmt.Printf("VIOLATION property=C20 replay=%s\n", path)
